@@ -46,9 +46,11 @@ fn main() {
     let args = Args { tier, seed, replay };
     let code = match id {
         "C01" => run_property(&props::c01::C01, &args),
+        "C02" => run_property(&props::c02::C02, &args),
         "C03" => run_property(&props::c03::C03, &args),
         "C04" => run_property(&props::c04::C04, &args),
         "C05" => run_property(&props::c05::C05, &args),
+        "C07" => run_property(&props::c07::C07, &args),
         x => {
             eprintln!("unknown property {}", x);
             2
